@@ -2023,7 +2023,10 @@ func (h *handler) getPartitionLog(ctx context.Context, topic string, partition i
 			}
 			if lastOffset >= nextOffset {
 				if err := h.store.UpdateOffsets(ctx, topic, partition, lastOffset); err != nil {
+					// Serving with the stale end offset would hide acknowledged
+					// records that S3 holds; fail the open so the next request retries.
 					h.logger.Error("sync offsets from S3 failed", "error", err, "topic", topic, "partition", partition)
+					return nil, err
 				}
 			}
 
